@@ -82,6 +82,18 @@ def step (args : List String) : String :=
           | .written code => s!"ok wr={code} rd={opModeReads code delay m}")
        | none => "bad-op")
     | _, _, _, _, _ => "bad-op"
+  | ["modef", mi, mask, tr, delay, m] =>
+    -- the mode request, then a state assignment SWITCH ON DISABLED → READY TO SWITCH ON: over PDO
+    -- the one RPDO sent for the controlword carries the mode in force (0 unless a mode was set)
+    match parseNat mi, parseNat mask, parseTransport tr, parseNat delay, parseNat m with
+    | some mi, some mask, some pdo, some delay, some m =>
+      (match modeNames[mi]? with
+       | some name =>
+         (match opModeSet mask name with
+          | .refused => s!"refused wr=- rd=0 carried={if pdo then "0" else "-"}"
+          | .written code => s!"ok wr={code} rd={opModeReads code delay m} carried={if pdo then toString code else "-"}")
+       | none => "bad-op")
+    | _, _, _, _, _ => "bad-op"
   | _ => "bad-op"
 
 end Canopen.Driver.C19
